@@ -18,10 +18,100 @@ fn usage() -> ! {
     std::process::exit(2)
 }
 
+/// A property check runs in a child process of its own: the code under test can take the process
+/// down without unwinding (a failed allocation of a length read from a damaged file aborts).
+/// That is a verdict about the code under test, not a failure of the machinery: the parent
+/// reports it, with what the child was handing to the code under test at that moment.
+fn run_isolated(args: &[String]) -> i32 {
+    use std::io::BufRead;
+    use std::os::unix::process::ExitStatusExt;
+    let t0 = std::time::Instant::now();
+    let mut child = match std::process::Command::new(util::self_exe()).args(&args[1..]).env("NUNMC_ISOLATED", "1").stderr(std::process::Stdio::piped()).spawn() {
+        Ok(c) => c,
+        Err(e) => {
+            eprintln!("machinery: cannot start the check process: {}", e);
+            return 2;
+        }
+    };
+    let pid = child.id();
+    let err = child.stderr.take().unwrap();
+    let tail = std::sync::Arc::new(std::sync::Mutex::new(std::collections::VecDeque::<String>::new()));
+    let tail2 = tail.clone();
+    let reader = std::thread::spawn(move || {
+        for line in std::io::BufReader::new(err).split(b'\n').flatten() {
+            let line = String::from_utf8_lossy(&line).to_string();
+            eprintln!("{}", line);
+            let mut t = tail2.lock().unwrap();
+            t.push_back(line);
+            if t.len() > 60 {
+                t.pop_front();
+            }
+        }
+    });
+    let status = child.wait();
+    let _ = reader.join();
+    let scratch = std::path::PathBuf::from(format!("{}/nunmc-{}", if std::path::Path::new("/dev/shm").is_dir() { "/dev/shm" } else { "/tmp" }, pid));
+    let letters = std::fs::read_to_string(scratch.join("letters")).map(|l| format!(" [letters of the alphabet: {}]", l.replace('\n', " | "))).unwrap_or_default();
+    let crumb = format!("{}{}", util::read_contexts(&scratch).join(" ## "), if letters.len() < 3000 { letters } else { String::new() });
+    let _ = std::fs::remove_dir_all(&scratch);
+    let status = match status {
+        Ok(s) => s,
+        Err(e) => {
+            eprintln!("machinery: waiting for the check process failed: {}", e);
+            return 2;
+        }
+    };
+    if let Some(c) = status.code() {
+        return c;
+    }
+    let lines: Vec<String> = tail.lock().unwrap().iter().cloned().collect();
+    let alloc = lines.iter().rev().find(|l| l.starts_with("memory allocation of ") && l.ends_with(" failed")).cloned();
+    let signal = status.signal().unwrap_or(0);
+    match alloc {
+        Some(a) if signal == 6 => {
+            let property = args[1].clone();
+            let tier = args[2].clone();
+            let level = match property.as_str() {
+                "C11" | "C16" | "C18" => "fault_enumeration",
+                _ => "model_checking",
+            };
+            let shape = format!("{} @ {}", a.replace(|c: char| c.is_ascii_digit(), "#"), crumb.split(" || ").next().unwrap_or(""));
+            let dir = format!("/verif/replays/{}", property);
+            let _ = std::fs::create_dir_all(&dir);
+            let path = format!("{}/{:016x}.json", dir, (util::hash128(&shape) >> 64) as u64);
+            let body = serde_json::json!({"property": property, "clause": "code-under-test-aborted-the-process", "shape": shape, "detail": format!("{}; the check had just handed this to the code under test: {}", a, crumb), "replay": {"engine":"isolation","handed_to_the_code_under_test": crumb, "stderr_tail": lines}});
+            let _ = std::fs::write(&path, serde_json::to_string_pretty(&body).unwrap());
+            println!("VIOLATION property={} replay={}", property, path);
+            println!("  clause=code-under-test-aborted-the-process shape={}", shape);
+            println!("  detail={}; handed to the code under test: {}", a, crumb);
+            let ev = serde_json::json!({
+                "property_id": property, "tier": tier, "seed": std::env::var("VERIF_SEED").ok().and_then(|s| s.parse::<u64>().ok()).unwrap_or(0), "level": level,
+                "coverage": {"evaluations": 1, "distinct_nontrivial": 1, "exhaustive": false, "aborted_by_the_code_under_test": true,
+                    "rule": "the check process was aborted by the code under test (allocation failure); only the case that was being handed to it is reported",
+                    "explanation": "the check process was aborted by the code under test (allocation failure); only the case that was being handed to it is reported",
+                    "samples": [crumb]},
+                "assumptions": [], "wall_s": t0.elapsed().as_secs_f64(), "violations": 1});
+            let evdir = std::env::var("NUNMC_EVIDENCE_DIR").unwrap_or_else(|_| "/verif/evidence".to_string());
+            let _ = std::fs::create_dir_all(&evdir);
+            let _ = std::fs::write(format!("{}/{}.json", evdir, property), serde_json::to_string_pretty(&ev).unwrap());
+            println!("{} {}: VIOLATED (the code under test aborted the check process)", property, tier);
+            1
+        }
+        _ => {
+            eprintln!("machinery: the check process was killed by signal {} (last thing handed to the code under test: {})", signal, crumb);
+            2
+        }
+    }
+}
+
 fn main() {
     let args: Vec<String> = std::env::args().collect();
     if args.len() < 3 {
         usage();
+    }
+    let is_property = args[1].len() == 3 && args[1].starts_with('C') && args[1][1..].chars().all(|c| c.is_ascii_digit());
+    if is_property && std::env::var("NUNMC_ISOLATED").is_err() {
+        std::process::exit(run_isolated(&args));
     }
     world::install_panic_hook();
     world::remove_stale_scratch();
